@@ -109,6 +109,9 @@ def main():
 
     do_history(job.get("history", []), ode_from_string)
     ode = ode_from_string(job["text"])
+    if job.get("sub"):
+        comp = ode.get_component(job["sub"].lstrip("-"))
+        ode = (ode - comp) if job["sub"].startswith("-") else comp.to_ode()
     if job.get("try_matrices"):
         from gotranx import sympytools
 
@@ -133,6 +136,8 @@ def main():
         orders.append(",".join(a.value.dependencies))
     out["dependency_order_vector"] = sha("|".join(orders))[:16]
     out["component_order"] = [c.name for c in ode.components]
+    if job.get("sub"):
+        out["missing_variables"] = sorted(ode.missing_variables.items(), key=lambda kv: kv[1])
     shared_lists = {}  # the caller's option objects are reused between calls, as a program generating several targets does
     for req in job["requests"]:
         key = req["key"]
